@@ -25,6 +25,7 @@ inductive ExtQ where
   | stat (path : Bytes)            -- os.Stat: 0 file, 1 dir, 2 error (text = err.Error())
   | timeparse (layout val : Bytes) -- time.Parse: 1 ok, 0 error
   | atoierr (s : Bytes)            -- text of the error strconv.Atoi returns for s
+  | unescapeerr (s : Bytes)        -- text of the error url.QueryUnescape returns for s
 deriving Repr, DecidableEq, BEq
 
 structure ExtA where
@@ -211,12 +212,16 @@ def toStrIface (tv : GoVal) : M Bytes :=
     | none =>
       -- fmt %v of a slice/array of scalars: "[a b c]"
       match v with
-      | .slice _ _ _ es | .array _ _ es =>
-        match es.toList.mapM (fun e => match e with
-            | .float _ _ _ _ => none
-            | e => e.toStr) with
-        | some parts => pure ([91] ++ Bytes.join [SP] parts ++ [93])
-        | none => throw (.unmodelled "ToStr of composite")
+      | .slice tstr _ _ es | .array tstr _ es =>
+        -- `case []byte: return string(value)`
+        if tstr == b "[]uint8" then
+          pure (es.toList.filterMap fun e => match e with | .uint _ n => some (UInt8.ofNat n) | _ => none)
+        else
+          match es.toList.mapM (fun e => match e with
+              | .float _ _ _ _ => none
+              | e => e.toStr) with
+          | some parts => pure ([91] ++ Bytes.join [SP] parts ++ [93])
+          | none => throw (.unmodelled "ToStr of composite")
       | _ => throw (.unmodelled "ToStr of composite")
 
 /-- `eq`: (eqStr, unit, cusMsg, isEq) -/
@@ -330,7 +335,9 @@ def ruleDatetime (ext : Ext) (v o f : Bytes) (tv : GoVal) : M Bytes :=
   let s0 := pickSep 0 [45]
   let s1 := pickSep 1 [SP]
   let s2 := pickSep 2 [58]
-  strRule v o f tv (timeOk ext (getTimeFmt 63 [s0, s1, s2]))
+  let layout := getTimeFmt 63 [s0, s1, s2]
+  -- time.Parse is lenient (one-digit hour, fractional seconds): the code also requires equal length
+  strRule v o f tv (fun s => do pure ((← timeOk ext layout s) && s.length == layout.length))
     (b "it is not datetime, eg: 1996" ++ s0 ++ b "09" ++ s0 ++ b "28" ++ s1 ++ b "23" ++ s2 ++ b "00" ++ s2 ++ b "00")
 
 /-! ### `re` -/
